@@ -24,6 +24,15 @@ def run(db, res):
             t = G.term(x['idx'])
             key = '%s:%s[%s]' % (name, A, P.K(x['idx']))
             if not t:
+                # mirror index  (L + c) - v : in bounds iff c <= -1 (below L) and v <= L + c (not below 0)
+                i0 = strip(x['idx'])
+                tl, tv = (G.term(i0['l']), G.term(i0['r'])) if (i0 is not None and i0.get('k') == 'bin' and i0['op'] == '-') else (None, None)
+                if tl and tv and tl[0] == L and tv[0] not in ('0', L):
+                    c = tl[1] - tv[1]
+                    bnd = fs.b.get((tv[0], L))
+                    if c <= -1 and bnd is not None and bnd <= c:
+                        seen.setdefault((key, x['loc']), ('PROVED', '%s <= %s + %d known (index counted from the end)' % (tv[0], L, c)))
+                        return
                 seen.setdefault((key, x['loc']), ('UNKNOWN', 'index is not of the form v + c'))
                 return
             v, c = t
